@@ -170,11 +170,15 @@ func NewChain(p MParams, names []string, bal map[string]int64) *Chain {
 	}
 
 	// the test module that owns module contexts: recording callbacks
+	// (the callbacks record into the chain - or the branch of it - that is executing the step)
+	activeChain = c
 	_ = c.K.RegisterResponseCallback(ModName, func(ctx sdk.Context, id tmbytes.HexBytes, outs []string, err error) {
-		c.cbs = append(c.cbs, Callback{Kind: "resp", ID: c.CtxIDs[string(id)], Outs: append([]string{}, outs...), Err: err != nil})
+		a := activeChain
+		a.cbs = append(a.cbs, Callback{Kind: "resp", ID: a.CtxIDs[string(id)], Outs: append([]string{}, outs...), Err: err != nil})
 	})
 	_ = c.K.RegisterStateCallback(ModName, func(ctx sdk.Context, id tmbytes.HexBytes, cause string) {
-		c.cbs = append(c.cbs, Callback{Kind: "state", ID: c.CtxIDs[string(id)], Outs: []string{}, Cause: cause})
+		a := activeChain
+		a.cbs = append(a.cbs, Callback{Kind: "state", ID: a.CtxIDs[string(id)], Outs: []string{}, Cause: cause})
 	})
 
 	service.EndBlockHook = nil
@@ -230,6 +234,7 @@ type Outcome struct {
 
 // run executes f on a cache of the block context and commits it only on success.
 func (c *Chain) run(f func(ctx sdk.Context) error) (out Outcome) {
+	activeChain = c
 	cacheCtx, write := c.Ctx.CacheContext()
 	cacheCtx = cacheCtx.WithContext(context.WithValue(
 		context.WithValue(cacheCtx.Context(), types.TxHash, c.nextTxHash()), types.MsgIndex, int64(0)))
@@ -291,6 +296,7 @@ func (c *Chain) CtxID(n int) []byte {
 
 // EndBlock runs the real EndBlocker on the block context; sub-steps are reported through OnSub.
 func (c *Chain) EndBlock(dt int64) (out Outcome) {
+	activeChain = c
 	service.EndBlockHook = func(ctx sdk.Context, stage string, id []byte) {
 		n := 0
 		if id != nil {
